@@ -3,11 +3,14 @@
 # (default: every id of MANIFEST.json), one summary line each; exit 1 if any check did.
 cd "$(dirname "$0")/.."
 tier=(); if [ "${1:-}" = "--tier" ]; then tier=(--tier "$2"); shift 2; fi
-ids=("$@"); [ ${#ids[@]} -eq 0 ] && ids=($(python3 -c "import json;print(' '.join(c['property_id'] if 'property_id' in c else c['id'] for c in json.load(open('MANIFEST.json'))['checks']))" 2>/dev/null))
+nargs=$#; ids=("$@"); [ ${#ids[@]} -eq 0 ] && ids=($(python3 -c "import json;print(' '.join(c['property_id'] if 'property_id' in c else c['id'] for c in json.load(open('MANIFEST.json'))['checks']))" 2>/dev/null))
 [ ${#ids[@]} -eq 0 ] && ids=(C01 C02 C03 C04 C05 C06 C07 C08 C09 C10 C11 C12 C13 C14 C15 C16 C17 C18 C19 C20 CLI)
+# CLI (the command-line glue, props/CLI.json) is a check but not one of the 20 properties of MANIFEST.json
+[ $nargs -eq 0 ] && [ -f props/CLI.json ] && [[ ! " ${ids[*]} " =~ " CLI " ]] && ids+=(CLI)
 bad=0
 for c in "${ids[@]}"; do
   s=$(date +%s); out=$(bin/check "$c" "${tier[@]}" 2>&1); rc=$?
+  mkdir -p work/logs; echo "$out" > "work/logs/$c.seed${VERIF_SEED:-default}.log"   # the full output of the check
   echo "$c exit=$rc $(( $(date +%s)-s ))s $(echo "$out" | grep -c '^KNOWN-FINDING') known $(echo "$out" | grep -m1 '^VIOLATION')"
   [ $rc = 0 ] || bad=1
 done
